@@ -34,10 +34,29 @@ type hookLine struct {
 	// HReq is the request the attempt belongs to when the driver knows it (its own calls); traces of
 	// the repository's tests have only the key to go by
 	HReq int `json:"-"`
+	// P2 keeps the point's name when P is rewritten for a section that was not atomic
+	P2 string `json:"-"`
+}
+
+// closing returns the index of the stamp that closes the critical section opened at st[i].
+func closing(st []hookLine, i int) int {
+	for j := i + 1; j < len(st); j++ {
+		if st[j].Att == st[i].Att {
+			st[j].P2 = st[j].P
+			return j
+		}
+	}
+	return -1
 }
 
 // ctlEvents turns the stamped hook lines of one broker into BrokerCtlTrace events.
 func ctlEvents(lines []hookLine) (evs []brk.TraceEv, natt, nkeys int, err error) {
+	evs, natt, nkeys, _, _, err = ctlEventsIDs(lines)
+	return
+}
+
+// ctlEventsIDs is ctlEvents, also returning how real attempts and real IDs were named.
+func ctlEventsIDs(lines []hookLine) (evs []brk.TraceEv, natt, nkeys int, ids map[uint64]int, keys map[string]string, err error) {
 	var st []hookLine
 	for _, l := range lines {
 		if l.Locked {
@@ -45,9 +64,9 @@ func ctlEvents(lines []hookLine) (evs []brk.TraceEv, natt, nkeys int, err error)
 		}
 	}
 	sort.Slice(st, func(i, j int) bool { return st[i].Seq < st[j].Seq })
-	ids := map[uint64]int{}   // real attempt -> specification attempt
+	ids = map[uint64]int{}    // real attempt -> specification attempt
 	ioIDs := map[string]int{} // /io key -> id of its input half
-	keys := map[string]string{"": ""}
+	keys = map[string]string{"": ""}
 	next := 1
 	shut := false
 	mapKey := func(k string) string {
@@ -63,6 +82,11 @@ func ctlEvents(lines []hookLine) (evs []brk.TraceEv, natt, nkeys int, err error)
 	post := func(l hookLine) brk.TraceEv {
 		return brk.TraceEv{"key": mapKey(l.SKey), "bidir": strings.HasPrefix(l.SKey, "BIDIR"), "inh": l.In, "outh": l.Out, "nomore": l.NoMore}
 	}
+	type deferredEv struct {
+		id int
+		c  hookLine
+	}
+	deferred := map[int]deferredEv{}
 	for i := 0; i < len(st); i++ {
 		l := st[i]
 		if l.NoMore && !shut && (l.P == "locked" || l.P == "relocked") {
@@ -71,6 +95,11 @@ func ctlEvents(lines []hookLine) (evs []brk.TraceEv, natt, nkeys int, err error)
 			evs = append(evs, brk.TraceEv{"e": "Shutdown"})
 		}
 		switch l.P {
+		case "deferred-admit":
+			d := deferred[i]
+			e := post(d.c)
+			e["e"], e["a"], e["accepted"], e["split"] = "Admit", d.id, d.c.P2 == "attached", true
+			evs = append(evs, e)
 		case "locked":
 			id, known := ids[l.Att]
 			dir := map[string]string{"input": "in", "output": "out"}[l.Dir]
@@ -98,11 +127,20 @@ func ctlEvents(lines []hookLine) (evs []brk.TraceEv, natt, nkeys int, err error)
 				}
 				ids[l.Att] = id
 			}
-			// the section's closing stamp
-			if i+1 >= len(st) || st[i+1].Att != l.Att {
-				return nil, 0, 0, fmt.Errorf("attempt %d: critical section without its closing stamp", l.Att)
+			// the section's closing stamp.  Under b.mu it is the very next stamp; code that lets go
+			// of the lock inside the section has other sections' stamps in between: the section is
+			// then placed where it ends (its state is what it wrote last) and TLC decides whether
+			// the execution is still one of atomic admissions.
+			ci := closing(st, i)
+			if ci < 0 {
+				return nil, 0, 0, nil, nil, fmt.Errorf("attempt %d: critical section without its closing stamp", l.Att)
 			}
-			c := st[i+1]
+			c := st[ci]
+			if ci != i+1 {
+				deferred[ci] = deferredEv{id: id, c: c}
+				st[ci].P = "deferred-admit"
+				continue
+			}
 			i++
 			e := post(c)
 			e["e"], e["a"], e["accepted"] = "Admit", id, c.P == "attached"
@@ -110,7 +148,7 @@ func ctlEvents(lines []hookLine) (evs []brk.TraceEv, natt, nkeys int, err error)
 		case "relocked":
 			id := ids[l.Att]
 			if i+1 >= len(st) || st[i+1].Att != l.Att || st[i+1].P != "leave" {
-				return nil, 0, 0, fmt.Errorf("attempt %d: release section without its closing stamp", l.Att)
+				return nil, 0, 0, nil, nil, fmt.Errorf("attempt %d: release section without its closing stamp", l.Att)
 			}
 			c := st[i+1]
 			i++
@@ -119,10 +157,10 @@ func ctlEvents(lines []hookLine) (evs []brk.TraceEv, natt, nkeys int, err error)
 			e["e"], e["a"] = "Release", id
 			evs = append(evs, e)
 		default:
-			return nil, 0, 0, fmt.Errorf("unexpected stamped point %q", l.P)
+			return nil, 0, 0, nil, nil, fmt.Errorf("unexpected stamped point %q", l.P)
 		}
 	}
-	return evs, next - 1, len(keys) - 1, nil
+	return evs, next - 1, len(keys) - 1, ids, keys, nil
 }
 
 func ctlTraceCfg(natt, nkeys int) string {
@@ -194,6 +232,9 @@ func validateCtlTraces(r *ev.Run, prop, source string, traces [][]brk.TraceEv, n
 			continue
 		}
 		p, aspect := ctlAttribute(traces[k][at])
+		if prop == "C06" && crossPairing(traces[k], at) {
+			p, aspect = "C06", "trace:cross-pairing"
+		}
 		if inv != "" {
 			p, aspect = "C01", "trace:"+inv
 			if inv == "SameRequest" || inv == "AtMostOneIO" {
@@ -396,4 +437,47 @@ func apalacheLeg(r *ev.Run) {
 	default:
 		r.Set("apalache_inductive_invariant", "not discharged in this run (tool stalled or unavailable): "+strings.TrimSpace(string(out)))
 	}
+}
+
+// crossPairing says whether the refused event at is an admission the code granted to a stream
+// whose peer direction is held by a stream of another request while one of the two is a half of
+// /io: the combination C06 excludes.
+func crossPairing(t []brk.TraceEv, at int) bool {
+	num := func(v any) int {
+		switch x := v.(type) {
+		case int:
+			return x
+		case float64:
+			return int(x)
+		}
+		return 0
+	}
+	dirOf, reqOf, isIO := map[int]string{}, map[int]int{}, map[int]bool{}
+	holder := map[string]int{}
+	for i, e := range t[:at+1] {
+		switch e["e"] {
+		case "ArriveUni":
+			dirOf[num(e["a"])], reqOf[num(e["a"])] = fmt.Sprint(e["d"]), -i-1
+		case "ArriveIO":
+			a, b := num(e["a"]), num(e["b"])
+			dirOf[a], dirOf[b], reqOf[a], reqOf[b], isIO[a], isIO[b] = "in", "out", i+1, i+1, true, true
+		case "Release":
+			delete(holder, dirOf[num(e["a"])])
+		case "Admit":
+			a := num(e["a"])
+			acc, _ := e["accepted"].(bool)
+			if i == at {
+				other := "in"
+				if dirOf[a] == "in" {
+					other = "out"
+				}
+				h, ok := holder[other]
+				return acc && ok && (isIO[a] || isIO[h]) && reqOf[a] != reqOf[h]
+			}
+			if acc {
+				holder[dirOf[a]] = a
+			}
+		}
+	}
+	return false
 }
